@@ -117,6 +117,11 @@ SPECS = {
             ("solid_T_center", "T_center", 2, "solid_field", "solidification stencil, interior nodes"),
             ("solid_T_top", "T_top", 2, "solid_field", "solidification stencil, top node"),
             ("w_i_k", "w_i_k", 2, "w_i_k", "ice mass fraction m_ice/mass"),
+            ("solid_LCS_i", "LCS_i", 3, "solid_masks", "supercooling mask of the solidification loop: T_k < T_eq_l", dict(kind="mask")),
+            ("solid_LCS_i_r", "LCS_i_r", 3, "solid_masks", "its complement ~LCS_i (with the definition of LCS_i)",
+             dict(kind="mask", inline=["LCS_i"])),
+            ("BETA", "BETA", 1, "BETA", "apparent-capacitance factor np.ones(Nz)*LCS_i_r + (1 + beta/(T_k - T_m)**2)*LCS_i, masks multiplied in"),
+            ("m_ice", "m_ice", 1, "m_ice", "ice mass np.zeros(Nz)*LCS_i_r + (mass_water - mass_solute (k_f/M_s)/(T_m - T_k))*LCS_i"),
         ]),
     "2D": dict(
         file="Formulas2D.lean", source="snowing.py", func="Snowing._run_2D", namespace="Snow.Gen.F2D",
@@ -178,6 +183,11 @@ SPECS = {
             ("solid_centre_line", "T_new[1:Nz - 1, 0]", 2, "solid_centre_line", "solidification stencil, region centre line"),
             ("solid_bulk", "T_new[1:Nz - 1, 1:Nr - 1]", 2, "solid_bulk", "solidification stencil, region bulk"),
             ("w_i_new", "w_i_new", 2, "w_i_new", "ice mass fraction m_ice/(mass_water + mass_solute)"),
+            ("solid_LCS_i", "LCS_i", 3, "solid_masks", "supercooling mask left by a solidification step: T_k < T_eq_l", dict(kind="mask")),
+            ("solid_LCS_i_r", "LCS_i_r", 3, "solid_masks", "its complement ~LCS_i (with the definition of LCS_i)",
+             dict(kind="mask", inline=["LCS_i"])),
+            ("BETA", "BETA", 1, "BETA", "apparent-capacitance factor np.ones((Nz, Nr))*LCS_i_r + (1 + beta/(T_k - T_m)**2)*LCS_i, masks multiplied in"),
+            ("m_ice", "m_ice", 1, "m_ice", "ice mass np.zeros((Nz, Nr))*LCS_i_r + (mass_water - mass_solute (k_f/M_s)/(T_m - T_new))*LCS_i"),
             ("sigma_new", "sigma_new", 1, "sigma_new", "closed part of sigma_new: normalisation of the volume integral"),
         ]),
     "OpCond": dict(
